@@ -589,7 +589,10 @@ def m_into(interp, args, info):
 
 
 @model("into:&str->std::string::String", "<T as std::string::ToString>::to_string",
-       "<str as std::string::ToString>::to_string", "std::string::String::from")
+       "<str as std::string::ToString>::to_string", "std::string::String::from",
+       "std::str::<impl std::borrow::ToOwned for str>::to_owned", "alloc::str::<impl std::borrow::ToOwned for str>::to_owned",
+       "<std::string::String as std::convert::From<&str>>::from", "<std::string::String as std::str::FromStr>::from_str_infallible",
+       "std::string::String::from_str", "core::str::<impl str>::to_string", "std::str::<impl str>::to_owned")
 def m_to_string(interp, args, info):
     v = args[0]
     while isinstance(v, Ptr):
@@ -1281,7 +1284,63 @@ def m_opt_unwrap_or_else(interp, args, info):
 def m_opt_unwrap_or_default(interp, args, info):
     if is_some(args[0]):
         return args[0].fields[0]
+    targs = info.get("targs", [])
+    if targs:
+        return default_of_type(interp, targs[0])
     raise Inconclusive("unwrap_or_default on None", interp.where())
+
+
+def default_of_type(interp, tix, depth=0):
+    """`Default::default()` of the std types the crate uses"""
+    prog = interp.prog
+    t = prog.types[tix]
+    k = t.get("k")
+    if k == "int":
+        return 0
+    if k == "bool":
+        return False
+    if k == "tuple" and depth < 4:
+        return tuple(default_of_type(interp, x, depth + 1) for x in t["tys"])
+    if k == "adt":
+        n = t["adt"]
+        if n == "std::vec::Vec":
+            return ListV(())
+        if n == "std::string::String":
+            return StrV("")
+        if n == "std::option::Option":
+            return NONE
+    raise Inconclusive("Default::default() of %s" % prog.ty_str(tix), interp.where())
+
+
+@model("<T as std::default::Default>::default", "std::default::Default::default", "<std::vec::Vec<T> as std::default::Default>::default",
+       "<std::string::String as std::default::Default>::default", "<std::option::Option<T> as std::default::Default>::default")
+def m_default(interp, args, info):
+    targs = info.get("targs", [])
+    res = info.get("resolved") or {}
+    d = res.get("def", info.get("def", ""))
+    if "Vec<T>" in d:
+        return ListV(())
+    if "String" in d:
+        return StrV("")
+    if "Option<T>" in d:
+        return NONE
+    if targs:
+        return default_of_type(interp, targs[0])
+    raise Inconclusive("Default::default() of an unknown type", interp.where())
+
+
+@model("core::bool::<impl bool>::then_some")
+def m_bool_then_some(interp, args, info):
+    if not isinstance(args[0], bool):
+        raise Inconclusive("then_some on %r" % (args[0],), interp.where())
+    return some(args[1]) if args[0] else NONE
+
+
+@model("core::bool::<impl bool>::then")
+def m_bool_then(interp, args, info):
+    if not isinstance(args[0], bool):
+        raise Inconclusive("then on %r" % (args[0],), interp.where())
+    return some(interp.call_value(args[1], [])) if args[0] else NONE
 
 
 @model("std::option::Option::<T>::map_or")
@@ -1493,13 +1552,38 @@ def m_panic_fmt(interp, args, info):
 
 # --------------------------------------------------------------------------- hashing (records what is fed)
 
+def _feed_hash(interp, v, depth=0):
+    """what a value feeds to the hasher, flattened: tuples and references feed their parts in order"""
+    v = interp.strip(v)
+    while isinstance(v, (Ptr, BoxV)):
+        v = interp.strip(interp.load(v))
+    if isinstance(v, tuple) and depth < 6:
+        for x in v:
+            _feed_hash(interp, x, depth + 1)
+        return
+    interp.events.append(("hash", v))
+
+
 @model("core::hash::impls::<impl std::hash::Hash for u64>::hash", "core::hash::impls::<impl std::hash::Hash for isize>::hash",
        "<std::vec::Vec<T, A> as std::hash::Hash>::hash", "<std::string::String as std::hash::Hash>::hash",
-       "<std::boxed::Box<T, A> as std::hash::Hash>::hash", "std::hash::Hash::hash")
+       "<std::boxed::Box<T, A> as std::hash::Hash>::hash", "std::hash::Hash::hash",
+       "core::hash::impls::<impl std::hash::Hash for &T>::hash", "core::hash::impls::<impl std::hash::Hash for &mut T>::hash",
+       "core::hash::impls::<impl std::hash::Hash for [T]>::hash", "core::hash::impls::<impl std::hash::Hash for usize>::hash",
+       "core::hash::impls::<impl std::hash::Hash for u32>::hash", "core::hash::impls::<impl std::hash::Hash for u8>::hash",
+       "core::hash::impls::<impl std::hash::Hash for str>::hash", "core::hash::impls::<impl std::hash::Hash for bool>::hash")
 def m_hash(interp, args, info):
-    v = interp.strip(args[0])
-    interp.events.append(("hash", v))
+    _feed_hash(interp, args[0])
     return UNIT
+
+
+def _m_hash_tuple(interp, args, info):
+    _feed_hash(interp, args[0])
+    return UNIT
+
+
+for _gen in ("(A, B)", "(A, B, C)", "(A, B, C, D)", "(A, B, C, D, E)", "(T, B)", "(T, B, C)", "(T, B, C, D)", "(T, B, C, D, E)",
+             "(T,)", "(A,)"):
+    MODELS["core::hash::impls::<impl std::hash::Hash for %s>::hash" % _gen] = _m_hash_tuple
 
 
 # --------------------------------------------------------------------------- strings
@@ -1759,3 +1843,44 @@ for _n, _f in (("is_lt", lambda x: x < 0), ("is_le", lambda x: x <= 0), ("is_gt"
             return f(_ord_arg(interp, args[0]))
         return m
     MODELS.setdefault("std::cmp::Ordering::" + _n, _mk(_f))
+
+
+@model("std::string::String::as_str", "std::string::String::as_mut_str", "<std::string::String as std::convert::AsRef<str>>::as_ref",
+       "<std::string::String as std::borrow::Borrow<str>>::borrow", "<str as std::convert::AsRef<str>>::as_ref")
+def m_string_as_str(interp, args, info):
+    return args[0]
+
+
+@model("std::iter::Iterator::try_for_each")
+def m_iter_try_for_each(interp, args, info):
+    """try_for_each over an iterator passed by &mut; the closure returns Option<()> or Result<(), E>"""
+    c, path = interp.deref(args[0])
+    it = interp.read(c, path)
+    it = it if isinstance(it, IterV) else make_iter(interp, it)
+    targs = info.get("targs", [])
+    rty = interp.prog.ty_str(targs[-1]) if targs else ""
+    is_opt = rty.startswith("std::option::Option")
+    is_res = rty.startswith("std::result::Result")
+    if not (is_opt or is_res):
+        raise Inconclusive("try_for_each with residual type %s" % rty, interp.where())
+    while True:
+        x, it = iter_next(interp, it)
+        interp.write(c, path, it)
+        if not is_some(x):
+            return some(UNIT) if is_opt else ok(UNIT)
+        r = interp.call_value(args[1], [x.fields[0]])
+        if is_opt:
+            if not is_some(r):
+                return NONE
+        elif not _is_ok(r):
+            return r
+
+
+@model("std::array::<impl [T; N]>::map", "core::array::<impl [T; N]>::map")
+def m_array_map(interp, args, info):
+    a = args[0]
+    if isinstance(a, ListV):
+        return ListV([interp.call_value(args[1], [x]) for x in a.items])
+    if isinstance(a, tuple):
+        return tuple(interp.call_value(args[1], [x]) for x in a)
+    raise Inconclusive("array map on %r" % (a,), interp.where())
